@@ -137,34 +137,37 @@ def readSups (data : Bytes) (charset : List Int) : Nat → Nat → List Nat → 
           if gid ≥ cur then .err "invalid"
           else readSups data charset k (c + 3) (if gid ≠ 0 then res.set code gid else res) cur
 
+/-- the primary part (`switch format & 127`): the vector, the next glyph id and the cursor
+afterwards; `c` is the position of the format byte -/
+def readPrimary (data : Bytes) (c format nGlyphs : Nat) : Outcome (List Nat × Nat × Nat) :=
+  let res0 := List.replicate 256 0
+  if format % 128 = 0 then
+    match rd data (c + 1) 1 with
+    | none => .err "eof"
+    | some nb =>
+      let nCodes := beVal nb
+      if nCodes ≥ nGlyphs then .err "invalid"
+      else
+        match rd data (c + 2) nCodes with
+        | none => .err "eof"
+        | some codes =>
+          match readCodes codes res0 1 with
+          | .ok (res, cur) => .ok (res, cur, c + 2 + nCodes)
+          | .err e => .err e
+          | .panic s => .panic s
+  else if format % 128 = 1 then
+    match rd data (c + 1) 1 with
+    | none => .err "eof"
+    | some nb => readEncRanges data nGlyphs (beVal nb) (c + 2) res0 1
+  else .err "unsupported"
+
 /-- `readEncoding(p, charset)` with the parser at cursor `c` -/
 def readEncoding (data : Bytes) (c : Nat) (charset : List Int) : Outcome (List Nat) :=
   match rd data c 1 with
   | none => .err "eof"
   | some fb =>
     let format := beVal fb
-    let res0 := List.replicate 256 0
-    let primary : Outcome (List Nat × Nat × Nat) :=
-      if format % 128 = 0 then
-        match rd data (c + 1) 1 with
-        | none => .err "eof"
-        | some nb =>
-          let nCodes := beVal nb
-          if nCodes ≥ charset.length then .err "invalid"
-          else
-            match rd data (c + 2) nCodes with
-            | none => .err "eof"
-            | some codes =>
-              match readCodes codes res0 1 with
-              | .ok (res, cur) => .ok (res, cur, c + 2 + nCodes)
-              | .err e => .err e
-              | .panic s => .panic s
-      else if format % 128 = 1 then
-        match rd data (c + 1) 1 with
-        | none => .err "eof"
-        | some nb => readEncRanges data charset.length (beVal nb) (c + 2) res0 1
-      else .err "unsupported"
-    match primary with
+    match readPrimary data c format charset.length with
     | .err e => .err e
     | .panic s => .panic s
     | .ok (res, cur, c') =>
